@@ -97,6 +97,11 @@ def run(ctx):
     kinds = set()
     for b in chosen:
         kinds |= {s["a"] for s in json.loads(b)}
+    for b in rest:
+        ks = {s["a"] for s in json.loads(b)}
+        if not ks <= kinds:
+            chosen.append(b)
+            kinds |= ks
     path = ctx.path("topo_behaviours.jsonl")
     open(path, "w").write("\n".join(chosen) + "\n")
     out = ctx.path("topo_result.json")
@@ -106,6 +111,10 @@ def run(ctx):
     r = json.load(open(out))
     for m in r.get("mismatches") or []:
         st = m["behaviour"][m["step"]]
+        if m["kind"] == "idle":
+            ctx.violation("C16:silent-connection-kept-beyond-idle-timeout", "1.5 s after node %s stopped answering (heartbeat interval 150 ms, idle timeout "
+                          "600 ms) the proxy still holds: %s" % (st.get("h"), m.get("note")), replay=m)
+            continue
         key = "C16:%s-does-not-converge:after=%s" % (m["kind"], st["a"])
         ctx.violation(key, "after fault %s(%s) the proxy routes to %s, expected %s %s" % (st["a"], st.get("h"), m["got"], m["want"], m.get("note", "")), replay=m)
     ad = r.get("all_down") or {}
